@@ -99,6 +99,61 @@ def interrupted_negotiation(seed, policy):
     return run, res, log
 
 
+def reuse_from_status_callback(seed, where, policy=None):
+    """A finished status exchange leaves the Connection reusable at once - also for the very callback that receives its
+    result: connect() from the status handler of a query without ping, or from the ping handler, is a connect() like any
+    other. (Round 11, C16k: a ping handler that runs while the finished connection still counts as active.)
+    Returns None or what went wrong."""
+    from ..session import Run, TracingScript
+    from ..profile import Profile
+    from .. import peer as P
+    run = Run(policy=policy, seed=seed)
+    scripts, res = [], {}
+
+    def factory(idx, sess):
+        sc = TracingScript(run, Profile(340), [])
+        scripts.append(sc)
+        if idx == 0:
+            sc.steps = [('expect', 2), ('send', sc.prof.status_response(P.status_json(protocol=340, name='srv')))]
+            if where == 'ping':
+                sc.steps += [('expect', 3), ('send', lambda s: s.prof.status_pong(s.parsed[2].get('time', 0)))]
+        else:
+            sc.steps = [('expect', 2), ('send', sc.prof.login_success(bytes(range(16)), 'verif')),
+                        ('call', lambda s_: setattr(s_, 'state', 'play'))]
+        return sc
+    run.serve(factory)
+
+    def scenario(run):
+        c = run.make_connection(allowed_versions={340})
+
+        def again(_):
+            try:
+                c.connect()
+                res['connect'] = 'ok'
+            except Exception as e:      # noqa
+                res['connect'] = '%s: %s' % (type(e).__name__, e)
+        if where == 'ping':
+            c.status(handle_status=lambda d: None, handle_ping=again)
+        else:
+            c.status(handle_status=again, handle_ping=False)
+        run.settle()
+        res['errors'] = list(run.errors)        # (what the final disconnect() does to a thread waiting in select is not at issue here)
+        res['disc'] = lifecycle.api(run, c, 'disc')
+    run.go(scenario)
+    if run.outcome != 'done':
+        return 'execution ended as %s' % run.outcome
+    if res.get('connect') != 'ok':
+        return 'connect() from the %s handler of the finished query: %s' % (where, res.get('connect', 'handler never ran'))
+    second = [p['t'] for p in scripts[1].parsed[:2]] if len(scripts) > 1 else None
+    if second != ['handshake', 'login_start']:
+        return 'the server saw %r on the second connection, not handshake and login start' % (second,)
+    if res.get('errors'):
+        return 'an error was reported: %r' % (res['errors'][:1],)
+    if res.get('disc') not in (None, 'ok', True) and 'Invalid' in str(res.get('disc')):
+        return 'the final disconnect(): %r' % (res['disc'],)
+    return None
+
+
 def run(chk):
     core.import_minecraft()
     rng = random.Random(chk.seed)
@@ -186,6 +241,16 @@ def run(chk):
             chk.violation('lifecycle:disconnect-during-status-query', 'disconnect(immediate) while the status query of a negotiating connect() was '
                           'unanswered, then connect() (schedule %d): calls %r, TCP connections (index, protocol, next state) %r - expected %r and a '
                           'login at 757; execution %s' % (j, res_, log_, want, run_.outcome), {'j': j})
+    # ---- reuse from the callback that receives the result of a finished status exchange
+    for j in range(8 if quick else 80):
+        where = ('ping', 'status')[j % 2]
+        pol = vsched.SequentialPolicy() if j % 4 < 2 else vsched.RandomPolicy(chk.seed * 1000 + j, switch_prob=(0.05, 0.3, 0.7)[j % 3])
+        what = reuse_from_status_callback(chk.seed * 89 + j, where, pol)
+        chk.traces += 1
+        chk.case(('reuse-from-status-callback', j))
+        if what:
+            chk.violation('lifecycle:reuse-from-%s-handler' % where, 'status(), and connect() from the %s handler once the exchange is '
+                          'over (schedule %d): %s' % (where, j, what), {'j': j, 'where': where})
     chk.extra['interrupted_negotiations'] = n_neg
     # ---- 3. I->S: two-thread scenarios
     traces = []
